@@ -242,6 +242,57 @@ def wait_bootup(pattern, prior=0):
     sx.reach("wait-boot")
 
 
+def foreign_command_heartbeat(modifiable):
+    """the slave's heartbeat producer is running: a command addressed to another node leaves the state it reports
+    (the byte in its heartbeat frames) unchanged; a command for this node or a broadcast changes it to the new state"""
+    from harness import c17
+    rig = c17.Rig(bool(modifiable))
+    rig.local.sdo[0x1017].raw = 100
+    rig.ref["hb"] = dict(period=0.1)
+    name = ["OPERATIONAL", "STOPPED", "PRE-OPERATIONAL"][sx.choice(3, "start")]
+    rig.local.nmt.state = name
+    rig.hb_state = c17.CMD_TO_STATE[c17.NAME_TO_CMD[name]]
+    c17.check(rig, "C11/foreign-heartbeat/start")
+    cs = sx.fresh_byte("cs")
+    other = sx.fresh_int("other", 1, 127)
+    sx.assume(other != c17.LOCAL_ID)
+    rig.net.notify(0, sx.mkbytes([cs, other]), 0.0)
+    c17.check(rig, "C11/foreign-heartbeat/after-foreign")
+    sx.prove(ref_name_is(rig.local.nmt.state, rig.hb_state), "slave state changed by a foreign command",
+             "C11/foreign-heartbeat/state")
+    sx.reach("foreign-heartbeat")
+
+
+def wait_bootup_stream(nhb, period_ms):
+    """the node keeps sending ordinary heartbeats (no boot-up) every period: wait_for_bootup(timeout=1) fails with
+    the NMT error, and does so when its time-out has passed - not when the heartbeats happen to stop"""
+    rig = Rig()
+    NmtError = sx.mod("canopen.nmt").NmtError
+    left = [nhb]
+    period = period_ms / 1000.0
+
+    def hook(kind, obj):
+        if kind != "condition" or left[0] <= 0:
+            return
+        left[0] -= 1
+        sx.env().advance(period)
+        b = sx.fresh_byte("hb")
+        sx.assume(sx.any_([(b & 0x7F) == x for x in STATES if x != 0]))
+        rig.inject(0x700 + NODE, sx.mkbytes([b]))
+    sx.env().delivery_hook = hook
+    t0 = sx.env().now
+    try:
+        rig.master.wait_for_bootup(timeout=1)
+    except NmtError:
+        waited = sx.env().now - t0
+        sx.observe("waited", round(waited, 3))
+        sx.prove(waited <= 1 + 0.1 + 2 * period + 0.05, "the error came long after the time-out (heartbeats kept "
+                 "restarting the wait)", "C11/wait/bootup-late-error")
+        sx.reach("wait-boot-stream")
+        return
+    sx.fail("wait_for_bootup returned without a boot-up", "C11/wait/bootup-spurious")
+
+
 def wait_threads(kind, prior):
     """the heartbeat arrives from a second thread while the caller enters / sits in the wait"""
     rig = Rig()
@@ -276,6 +327,10 @@ def wait_threads(kind, prior):
 
 def jobs(tier):
     out = []
+    for mod in (1, 0):
+        out.append(dict(func="foreign_command_heartbeat", params=dict(modifiable=mod)))
+    for nhb, per in ((12, 300), (40, 100)) if tier == "quick" else ((12, 300), (40, 100), (8, 900), (100, 50)):
+        out.append(dict(func="wait_bootup_stream", params=dict(nhb=nhb, period_ms=per), weight=nhb))
     for kind in KINDS:
         out.append(dict(func="step", params=dict(kind=kind), weight=3))
         out.append(dict(func="step", params=dict(kind=kind, wild=True), weight=3))
@@ -313,7 +368,7 @@ META = dict(
                  "fake clock advances by the time-out on a wake-up without delivery"],
     stubs=["struct", "threading.Condition", "time", "can (unused: send_message replaced on the instance)", "logging"],
     required_reach=["send_command", "state-name", "invalid-name", "foreign", "heartbeat", "heartbeat-other", "bootup",
-                    "history", "wait-hb", "wait-hb-timeout", "wait-boot", "wait-boot-timeout", "threads-woken", "threads-timeout"],
+                    "history", "wait-hb", "wait-hb-timeout", "wait-boot", "wait-boot-timeout", "wait-boot-stream", "foreign-heartbeat", "threads-woken", "threads-timeout"],
     limits=dict(quick=dict(), thorough=dict()),
     validate_every=dict(quick=5, thorough=20),
 )
